@@ -89,8 +89,19 @@ def gen_chain(rng):
         members.append({"name": "snap", "cond": rng.pick([("bin", "eq", g.var("mood"), ("str", "blue")), ("bin", "lt", g.var("t"), g.num(rng.range(4, 20)))]),
                         "assigns": [{"target": "frozen", "mode": "single", "n": 0, "expr": g.var("bin")}], "expect": None, "watches": []})
         snapped = True
+    mixed = False
+    if rng.chance(1, 2):
+        # a later member hands an array variable and a scalar to one function (the evaluator builds the argument list by
+        # appending to the array it was given): the variable itself, and every variable sharing its history, must not move
+        arr = g.var("frozen") if snapped and rng.chance(2, 3) else g.var("bin")
+        members.append({"name": "m2", "cond": g.TRUE,
+                        "assigns": [{"target": "mix", "mode": "single", "n": 0,
+                                     "expr": ("call2", rng.pick(["count", "sum", "max", "min"]), arr, g.num(rng.range(5, 9)))},
+                                    {"target": "total", "mode": "single", "n": 0, "expr": ("call1", rng.pick(["sum", "count", "last"]), g.var("bin"))}],
+                        "expect": None, "watches": []})
+        mixed = True
     obs = {"name": "w", "cond": None, "assigns": [], "expect": None,
-           "watches": [("", "bin")] + ([("", "frozen")] if snapped else []) + ([("", "dep")] if any(m["name"] == "m1" for m in members) and rng.chance(1, 2) else []) + ([("", "agg")] if f != "sorted" and rng.chance(1, 2) else [])}
+           "watches": [("", "bin")] + ([("", "frozen")] if snapped else []) + ([("", "total"), ("", "mix")] if mixed else []) + ([("", "dep")] if any(m["name"] == "m1" for m in members) and rng.chance(1, 2) else []) + ([("", "agg")] if f != "sorted" and rng.chance(1, 2) else [])}
     members.append(obs)
     return {"signals": [("s", "scalar")], "actors": ["a", "b"] if two_actors else ["a"], "members": members}
 
